@@ -522,6 +522,7 @@ def check_property(mod, tier, seed, replay=None):
     diag_diffs = []
     kinds = {}
     errs = 0
+    outs = []
     impl_out = {}
     for c in with_line:
         io = safe(mod.impl, c) if HANGS[0] < 3 else 'SKIPPED-AFTER-HANGS'
@@ -530,6 +531,12 @@ def check_property(mod, tier, seed, replay=None):
         if io == 'ERR':
             errs += 1
         if io == 'STALL':
+            continue
+        if mo[id(c)] == 'OUT':
+            # the driver op declares the input OUTSIDE ITS MODEL (e.g. the knot-operation models search spans without the
+            # step back of the repaired find_span_linear: insertion / removal at u = U_n of a knot vector with an empty last
+            # span): no model answer to compare - the case is judged by the property's oracle alone, and counted
+            outs.append(c)
             continue
         if io != mo[id(c)]:
             # streams tagged 'diagnostic' pin behaviour OUTSIDE the property's quantifier (what exactly happens on
@@ -659,6 +666,8 @@ def check_property(mod, tier, seed, replay=None):
             partial=getattr(mod, 'PARTIAL', []),
             static=extra,
             correspondence=dict(cases=len(with_line), by_kind=kinds, error_cases=errs, disagreements=len(diffs),
+                                outside_model=dict(count=len(outs), rule="driver answer OUT: input outside the model (stated in the driver op), not compared, judged by the oracle alone",
+                                                   samples=[dict(line=c.line[:300], impl=str(impl_out[id(c)])[:160]) for c in outs[:5]]),
                                 diagnostic_disagreements=[dict(line=c.line[:300], impl=str(impl_out[id(c)])[:120], model=str(mo[id(c)])[:120]) for c in diag_diffs[:10]],
                                 diagnostic_disagreement_count=len(diag_diffs),
                                 distinct_nontrivial=nontrivial,
